@@ -15,6 +15,7 @@
   META      ... avro.codec is optional in the header (absent = null)                           (found F31)
   BLOCKCFG  data blocks are decoded under a fresh default configuration over the file's schema, never under the
             tightened configuration of the header (shared with C05): what any conforming writer wrote is readable
+  shared    SLICE / VARINT / FIXEDBUF reading primitives (c11); SINK/one-block-writer (c16)
 It does NOT decide that third-party tools read the file.
 """
 from ..lib import *
